@@ -29,7 +29,10 @@ Cand == <<
   P(6, TRUE, << <<32, 1, 13, 184, 0, 0, 0, 0, 0, 0, 0, 0, 0, 0, 0, 1>>, <<0, 0, 0, 0, 0, 0, 0, 0, 0, 0, 255, 255, 1, 2, 3, 4>> >>),  \* 17 + ::ffff:1.2.3.4
   P(6, FALSE, <<>>),                                                                 \* 18  ipv6hint 1.2.3.4 (no colon)
   P(0, TRUE, << <<1>> >>), P(0, TRUE, << <<1>>, <<3>> >>), P(0, TRUE, << <<3>>, <<1>> >>), P(0, TRUE, << <<4>> >>),   \* 19..22 mandatory
-  P(0, FALSE, << <<0>> >>), P(0, FALSE, << <<1>>, <<1>> >>), P(0, FALSE, <<>>)       \* 23 itself, 24 repeated, 25 unknown key name
+  P(0, FALSE, << <<0>> >>), P(0, FALSE, << <<1>>, <<1>> >>), P(0, FALSE, <<>>),      \* 23 itself, 24 repeated, 25 unknown key name
+  P(0, TRUE, << <<3>>, <<4>> >>), P(0, TRUE, << <<6>>, <<5>>, <<2>> >>),             \* 26 port|ipv4hint, 27 ipv6hint|echconfig|no-default-alpn:
+                                                                                     \*    key order differs from the alphabetical order of the names
+  P(1, TRUE, <<H3>>), P(1, TRUE, << <<104, 116, 116, 112, 47, 49, 46, 49>>, H2 >>)   \* 28 alpn=h3, 29 alpn=http/1.1|h2 (values that differ from the first byte on)
 >>
 NC == Len(Cand)
 
